@@ -100,7 +100,7 @@ func (c16) Gen(r *rand.Rand, tier string, run int) *core.Case {
 			case x < 3:
 				op = core.Op{Kind: "call", X: int64(r.IntN(objs + 1 + 4*r.IntN(2)))}
 			case x < 4:
-				op = core.Op{Kind: "subscribe", X: int64(1 + r.IntN(objs))}
+				op = core.Op{Kind: []string{"subscribe", "subscribe", "subscribe", "unsubscribe"}[r.IntN(4)], X: int64(1 + r.IntN(objs))}
 			case x < 6:
 				op = core.Op{Kind: []string{"remove", "remove", "self"}[r.IntN(3)], X: int64(1 + r.IntN(objs+4*r.IntN(2)))}
 			case x < 8:
@@ -146,6 +146,10 @@ type c16obj struct {
 type c16sub struct {
 	ackRet int64 // SubscribeTick returned (acknowledged)
 	closed bool
+	cancel func()
+	// cancelled: the subscriber left of its own accord (it is owed nothing
+	// afterwards; the others of its connection are)
+	cancelled bool
 }
 
 type c16state struct {
@@ -340,19 +344,20 @@ func (c16) Run(c *core.Case, env *core.Env) {
 		p := o.proxies[which%len(o.proxies)]
 		var ch chan int32
 		var err error
+		var cancel func()
 		switch which / len(o.proxies) % 3 {
 		case 0:
-			_, ch, err = p.SubscribeTick()
+			cancel, ch, err = p.SubscribeTick()
 		case 1:
-			_, ch, err = p.SubscribeTock()
+			cancel, ch, err = p.SubscribeTock()
 		default:
-			_, ch, err = p.SubscribeLevel()
+			cancel, ch, err = p.SubscribeLevel()
 		}
 		env.Return(h, "", err)
 		if err != nil {
 			return
 		}
-		sub := &c16sub{ackRet: h.Ret}
+		sub := &c16sub{ackRet: h.Ret, cancel: cancel}
 		st.mu.Lock()
 		o.subs = append(o.subs, sub)
 		st.mu.Unlock()
@@ -612,6 +617,25 @@ func (c16) Run(c *core.Case, env *core.Env) {
 					c16call(env, a, i, o, int(op.Y))
 				case "subscribe":
 					subscribe(a, pick(op.X), int(op.Y))
+				case "unsubscribe":
+					// one subscriber of the object leaves of its own accord
+					o := pick(op.X)
+					var leaving *c16sub
+					st.mu.Lock()
+					for _, sub := range o.subs {
+						if !sub.cancelled && sub.cancel != nil {
+							leaving = sub
+							sub.cancelled = true
+							break
+						}
+					}
+					st.mu.Unlock()
+					if leaving != nil {
+						h := env.Invoke(a, "unsubscribe", fmt.Sprintf("slot%d", o.slot))
+						leaving.cancel()
+						env.Return(h, "", nil)
+						env.Probe("subscribers-leaving-of-their-own-accord")
+					}
 				case "remove", "terminate", "self":
 					removal(a, op.Kind, pick(op.X), int(op.Y))
 				case "burst":
@@ -799,7 +823,7 @@ func (c16) Check(c *core.Case, env *core.Env, res zzsim.Result, v *core.Verdict)
 			// nobody ever asked to remove this object: its subscribers must
 			// not have been told anything, whatever happened to the others
 			for i, sub := range o.subs {
-				if sub.closed {
+				if sub.closed && !sub.cancelled {
 					bad("subscriber-of-a-live-object-told", "%s was never removed but the channel of its subscriber %d was closed", name, i)
 				}
 			}
